@@ -80,6 +80,15 @@ type App struct {
 	Trusted bool   `json:"trusted"`
 }
 
+// Hook is a hook declared in the root metadata.
+type Hook struct {
+	Name       string   `json:"name"`
+	Stages     []string `json:"stages"` // pre-commit | pre-push
+	Principals []string `json:"principals"` // abstract principal IDs
+	BlobID     string   `json:"blob_id"`
+	Timeout    int      `json:"timeout"`
+}
+
 type Policy struct {
 	RootPrincipals    []Principal  `json:"root_principals"`
 	RootThreshold     int          `json:"root_threshold"`
@@ -90,6 +99,7 @@ type Policy struct {
 	Files             []RuleFile   `json:"files"`
 	Globals           []GlobalRule `json:"globals,omitempty"`
 	Apps              []App        `json:"apps,omitempty"`
+	Hooks             []Hook       `json:"hooks,omitempty"`
 }
 
 // Clone deep-copies a policy through its own structure.
@@ -100,6 +110,13 @@ func (p Policy) Clone() Policy {
 	q.TargetsPrincipals = append([]Principal{}, p.TargetsPrincipals...)
 	q.Globals = append([]GlobalRule{}, p.Globals...)
 	q.Apps = append([]App{}, p.Apps...)
+	q.Hooks = make([]Hook, len(p.Hooks))
+	for i, h := range p.Hooks {
+		hh := h
+		hh.Stages = append([]string{}, h.Stages...)
+		hh.Principals = append([]string{}, h.Principals...)
+		q.Hooks[i] = hh
+	}
 	q.Files = make([]RuleFile, len(p.Files))
 	for i, f := range p.Files {
 		g := f
@@ -175,6 +192,26 @@ func (p Policy) BuildRoot() (*sslibdsse.Envelope, error) {
 		}
 		if a.Trusted {
 			root.EnableGitHubAppApprovals(a.Name)
+		}
+	}
+	if len(p.Hooks) > 0 {
+		idx := p.PrincipalIndex()
+		for _, h := range p.Hooks {
+			stages := []tuf.HookStage{}
+			for _, st := range h.Stages {
+				if st == "pre-commit" {
+					stages = append(stages, tuf.HookStagePreCommit)
+				} else {
+					stages = append(stages, tuf.HookStagePrePush)
+				}
+			}
+			ids := []string{}
+			for _, pid := range h.Principals {
+				ids = append(ids, idx[pid].TufID())
+			}
+			if _, err := root.AddHook(stages, h.Name, ids, map[string]string{"gitBlob": h.BlobID, "sha256": "00"}, tuf.HookEnvironmentLua, h.Timeout); err != nil {
+				return nil, err
+			}
 		}
 	}
 	if p.RootVersion > 0 {
